@@ -1,6 +1,7 @@
 (* C13 -- region measurements and label-map utilities equal their per-label definitions. *)
 Require Import MV.Base.Prelude MV.Base.CInt MV.Base.Index MV.Base.BorderSpec MV.Base.Renumber.
 Require Import MV.Gen.Scalar_gen MV.Model.Filter MV.Model.Labeled MV.Proof.ConvProof MV.Proof.LabeledProof MV.Proof.SameLabelingProof MV.Proof.BboxProof MV.Proof.BboxFastProof.
+Require Import MV.Proof.ComProof.
 
 (* labeled_foldl: result[k] is the fold of the operation over exactly the pixels carrying label k (scan order),
    for ANY operation and identity element -- nothing from other labels leaks in *)
@@ -73,3 +74,12 @@ Proof. exact bbox_generic_is_spec. Qed.
 Theorem C13_bbox_fast_path_is_the_tight_box : forall f N0 N1, shape f = [N0; N1] -> 0 < N0 -> 0 < N1 ->
   bbox_fast2 f = bbox_generic f /\ bbox_fast2 f = bbox_spec f.
 Proof. exact (fun f N0 N1 E H0 H1 => conj (bbox_fast2_is_generic f N0 N1 E H0 H1) (bbox_fast2_is_spec f N0 N1 E H0 H1)). Qed.
+
+(* center_of_mass: for every label l the accumulators of the model are the total weight and the weighted coordinate sums over
+   exactly the pixels carrying l (exact integers; the centroid is their quotient) -- any dimension, any labels *)
+Theorem C13_center_of_mass_sums : forall f lab l, pos_shape (shape f) ->
+  let idx := filter (fun i => nthZ 0 lab i =? l) (Zseq 0 (Z.to_nat (size (shape f)))) in
+  fst (com_sums f lab l) = sumZ (map (fun i => aget f (unravel (shape f) i)) idx) /\
+  forall j, 0 <= j < Zlen (shape f) ->
+    nthZ 0 (snd (com_sums f lab l)) j = sumZ (map (fun i => aget f (unravel (shape f) i) * nthZ 0 (unravel (shape f) i) j) idx).
+Proof. exact com_sums_over_pixels. Qed.
